@@ -53,6 +53,59 @@ def gen_cases(layout, rng, per_type, big=False, names=None):
             yield s, v, b
             if not s["fields"]:
                 break
+        for v in extra_values(layout, g, s, rng):
+            b = V.fits(layout, s, v)
+            if b is not None:
+                yield s, v, b
+
+
+def _from_raw(f, raw):
+    """the number whose fixed-length encoding under f's value encoding is `raw` (None: there is none)"""
+    w, enc = f["ty"]["t"]["w"], f["encoding"]
+    if enc == "bcd":
+        if any((x >> 4) > 9 or (x & 15) > 9 for x in raw):
+            return None
+        n = int(raw.hex())
+    elif enc == "be":
+        n = int.from_bytes(raw, "big")
+    elif enc == "dflt":
+        n = int.from_bytes(raw, "little")
+    else:
+        return None
+    return n if n < 256 ** w else None
+
+
+def extra_values(layout, g, s, rng):
+    """values the random generator is unlikely to hit: (1) vectors just above 256 elements; (2) a present positional
+    optional whose bytes look like the start of a tagged field that may follow it (tag byte, then the exact number of
+    bytes that are left)."""
+    fields = s["fields"]
+    for f in fields:
+        if f["ty"]["k"] == "vec":
+            g2 = V.Gen(layout, rng, small=True)
+            for n in (256, 257, 300):
+                v = g2.struct(s, 1.0)
+                v[f["name"]] = [g2.value(f, f["ty"]["t"], 1.0) for _ in range(n)]
+                yield g2.repair(s, v)
+    for i, f in enumerate(fields):
+        if f["tag"] is None and f["ty"]["k"] == "opt" and f["ty"]["t"]["k"] == "int" and f["length"].startswith("fixed:"):
+            N = int(f["length"][6:])
+            if N < 2:
+                continue
+            tags = sorted({x["tag"] for x in fields[i + 1:] if x["tag"] is not None and x["tag"] < 256} | {0x06})
+            for p_none in (1.0, 0.5, 0.0):
+                v = g.struct(s, p_none)
+                try:
+                    following = b"".join(R.field_bytes(layout, x, x["ty"], v[x["name"]]) for x in fields[i + 1:])
+                except R.NotRepresentable:
+                    continue
+                for t in tags:
+                    for L in sorted({N - 2 + len(following), len(following)}):
+                        val = _from_raw(f, bytes([t, L & 255]) + bytes(N - 2)) if L < 256 else None
+                        if val is not None:
+                            v2 = dict(v)
+                            v2[f["name"]] = val
+                            yield g.repair(s, v2)
 
 
 def shape(layout, ty, v):
